@@ -533,7 +533,6 @@ func errNilTestAny(info *types.Info, cond ast.Expr) (types.Object, bool, bool) {
 	return errNilTest(info, cond)
 }
 
-
 // c18PathScope (PATH-SCOPE, added after seeded change C18-b): a disable or override rule scoped to a path applies to
 // that file or directory, decided path-wise: fileMatchConfig tests normalpath.EqualsOrContainsPath(rule path, file
 // path) and nothing in the package compares a file path by string prefix (`foo` would also govern `foobar/x.proto`).
